@@ -130,9 +130,11 @@ def run(ctx):
                         if j <= d:
                             w[j] = rng.choice([1e-6, 1e-4, 1e-2, 0.5, 1.0]) * rng.choice([-1, 1])
                             cases.append({"fn": "p2l", "p": [hexf(x) for x in w], "fam": fam, "mode": "mixed", "timeout": 120})
-                    if rng.random() < 0.2:
-                        w = list(v) + [0.0] * rng.choice([1, 2])
+                    if rng.random() < 0.2 or (d <= 6 and rep == 0):
+                        w = list(v) + [0.0] * rng.choice([1, 2, 3])
                         cases.append({"fn": "p2l", "p": [hexf(x) for x in w], "fam": fam, "mode": "trailing-zeros", "timeout": 120})
+                        w = list(v) + [0.0] * rng.choice([1, 2, 3])
+                        cases.append({"fn": "ptlf", "p": [hexf(x) for x in w], "fam": fam, "mode": "trailing-zeros", "timeout": 120})
                 for kind in ("T", "U"):
                     v = gen_vec(rng, d, fam, None if rng.random() < 0.6 else par)
                     vi = gen_vec(rng, d, fam, None) if cplx else None
